@@ -3,7 +3,7 @@ from ..rules import delivery, flow
 from .common import declare
 
 RULES = ['META-PASS', 'META-FLAT', 'PAIRED-BUFFER', 'META-MEMBERS', 'FRESH-READ', 'STATE-PER-INSTANCE', 'FIFO-END', 'SWAP-ATOMIC']
-FLOORS = {'META-PASS': 10, 'META-FLAT': 20, 'PAIRED-BUFFER': 12}
+FLOORS = {'META-PASS': 8, 'META-FLAT': 20, 'PAIRED-BUFFER': 12}
 
 META = {
     'level': "Static metadata-flow analysis: nodes that buffer no metadata pass the unmodified metadata parameter (one-to-many "
